@@ -520,6 +520,23 @@ def verify_result(E, m, T, a, res, label, qprefix='q'):
         expect_voxel_2d(E, T, got, v[0], v[1], label + ': element is the spec-decoded sample')
 
 
+def apply_holes(E, T, nholes):
+    """Turn the symbolic 3D file T into an irregular one: the stored inline / crossline number arrays become concrete,
+    with zeros at `nholes` grid positions chosen by the solver (enumerated), and the trace count drops accordingly."""
+    n_grid = T.dims[0] * T.dims[1]
+    hs = []
+    for j in range(nholes):
+        hs.append(int(E.fresh('hole%d' % j, 0 if not hs else hs[-1] + 1, n_grid - 1)))
+    T.present = [g for g in range(n_grid) if g not in hs]
+    nx = T.dims[1]
+    T.footer_arrays = {
+        189: LazyArr((n_grid,), (lambda idx, hs=tuple(hs), nx=nx: 0 if int(idx[0]) in hs else 10 + 2 * (int(idx[0]) // nx)), 'num', 'i4'),
+        193: LazyArr((n_grid,), (lambda idx, hs=tuple(hs), nx=nx: 0 if int(idx[0]) in hs else 20 + 3 * (int(idx[0]) % nx)), 'num', 'i4')}
+    T.tracecount = len(T.present)
+    T.fields['tracecount'] = T.tracecount
+    T.header[68:72] = pack_field('<I', T.tracecount)
+
+
 def item_fn(method, bs, rate, nb, mode, opts=None):
     """Path function for one work item."""
     opts = opts or {}
@@ -555,19 +572,7 @@ def item_fn(method, bs, rate, nb, mode, opts=None):
             if 'nxl' in m.needs:
                 T.dims = (T.dims[0], int(T.dims[1]), T.dims[2])
             if opts.get('holes'):
-                # irregular file: the stored inline / crossline number arrays are concrete, zeros at the holes (chosen by the solver)
-                n_grid = T.dims[0] * T.dims[1]
-                hs = []
-                for j in range(opts['holes']):
-                    hs.append(int(E.fresh('hole%d' % j, 0 if not hs else hs[-1] + 1, n_grid - 1)))
-                T.present = [g for g in range(n_grid) if g not in hs]
-                nx = T.dims[1]
-                T.footer_arrays = {
-                    189: LazyArr((n_grid,), (lambda idx, hs=tuple(hs), nx=nx: 0 if int(idx[0]) in hs else 10 + 2 * (int(idx[0]) // nx)) if True else None, 'num', 'i4'),
-                    193: LazyArr((n_grid,), (lambda idx, hs=tuple(hs), nx=nx: 0 if int(idx[0]) in hs else 20 + 3 * (int(idx[0]) % nx)), 'num', 'i4')}
-                T.tracecount = len(T.present)
-                T.fields['tracecount'] = T.tracecount
-                T.header[68:72] = pack_field('<I', T.tracecount)
+                apply_holes(E, T, opts['holes'])
         st = make_store(T)
         if opts.get('truncate'):
             # the file is cut at an arbitrary byte length (C18): reads beyond the cut come back short / empty
